@@ -9,6 +9,49 @@ use turdb::sql::executor::ExecutorRow;
 use turdb::sql::predicate::CompiledPredicate;
 use turdb::types::{OwnedValue, Value};
 
+// ---- stubs: parts of the evaluator that none of these expressions can reach. `match expr` in `eval_value` reads the
+// variant through a pointer taken from an enum payload, which the symbolic executor cannot resolve (DESIGN 0.2 item 11),
+// so without these every evaluation also explores SQL function dispatch, CAST parsing, CASE, arithmetic / JSON / vector
+// operators. Each stub FAILS if it is ever called (a visible failure, judged by the native replay), it does not assume.
+pub fn stub_eval_function<'a>(_s: &CompiledPredicate<'a>, _f: &turdb::sql::ast::FunctionCall<'a>, _r: &ExecutorRow<'a>) -> Option<Value<'a>> where 'a: 'a {
+    panic!("role=no_function_call_is_evaluated_in_a_function_free_expression")
+}
+pub fn stub_eval_cast<'a>(_s: &CompiledPredicate<'a>, _v: &Value<'a>, _t: &turdb::sql::ast::DataType<'a>) -> Option<Value<'a>> where 'a: 'a {
+    panic!("role=no_cast_is_evaluated_in_a_cast_free_expression")
+}
+pub fn stub_eval_case<'a>(_s: &CompiledPredicate<'a>, _o: Option<&Expr<'a>>, _c: &[turdb::sql::ast::WhenClause<'a>], _e: Option<&Expr<'a>>, _r: &ExecutorRow<'a>) -> Option<Value<'a>> where 'a: 'a {
+    panic!("role=no_case_is_evaluated_in_a_case_free_expression")
+}
+pub fn stub_eval_binary_op<'a>(_s: &CompiledPredicate<'a>, _l: &Value<'a>, _o: &B, _r: &Value<'a>) -> Option<Value<'a>> where 'a: 'a {
+    panic!("role=no_value_level_binary_operator_is_evaluated_on_the_filter_path")
+}
+pub fn stub_eval_array_subscript<'a>(_s: &CompiledPredicate<'a>, _a: &Value<'a>, _i: &Value<'a>) -> Option<Value<'a>> where 'a: 'a {
+    panic!("role=no_array_subscript_is_evaluated")
+}
+pub fn stub_f64_from_str(_s: &str) -> Result<f64, core::num::ParseFloatError> { panic!("role=no_literal_is_parsed_in_a_literal_free_expression") }
+pub fn stub_i64_from_str(_s: &str) -> Result<i64, core::num::ParseIntError> { panic!("role=no_literal_is_parsed_in_a_literal_free_expression") }
+pub fn stub_like_match<'a>(_s: &CompiledPredicate<'a>, _t: &str, _p: &str, _ci: bool) -> bool where 'a: 'a { panic!("role=no_like_is_evaluated_in_a_like_free_expression") }
+macro_rules! vt_proof_pred {
+    (unwind = $u:expr; fn $name:ident() $body:block) => {
+        #[cfg(kani)]
+        #[kani::proof]
+        #[kani::stub(eyre::capture_handler, $crate::common::stub_capture_handler)]
+        #[kani::stub(alloc::fmt::format, $crate::common::stub_format)]
+        #[kani::stub(<eyre::Report as core::ops::Drop>::drop, $crate::common::stub_report_drop)]
+        #[kani::stub(core::arch::x86_64::__cpuid_count, $crate::common::stub_cpuid_noavx)]
+        #[kani::stub(turdb::sql::predicate::CompiledPredicate::eval_function, stub_eval_function)]
+        #[kani::stub(turdb::sql::predicate::CompiledPredicate::eval_cast, stub_eval_cast)]
+        #[kani::stub(turdb::sql::predicate::CompiledPredicate::eval_case, stub_eval_case)]
+        #[kani::stub(turdb::sql::predicate::CompiledPredicate::eval_binary_op, stub_eval_binary_op)]
+        #[kani::stub(turdb::sql::predicate::CompiledPredicate::eval_array_subscript, stub_eval_array_subscript)]
+        #[kani::stub(turdb::sql::predicate::CompiledPredicate::like_match, stub_like_match)]
+        #[kani::stub(<f64 as core::str::FromStr>::from_str, stub_f64_from_str)]
+        #[kani::stub(<i64 as core::str::FromStr>::from_str, stub_i64_from_str)]
+        #[kani::unwind($u)]
+        pub fn $name() $body
+    };
+}
+
 /// Reference value and SQL three-valued logic (the trusted base of this module).
 #[derive(Clone, Copy)]
 pub enum V { Null, Int(i64), Float(f64) }
@@ -96,45 +139,84 @@ fn cmp_case(ka: u8, kb: u8, k: u8, negate: bool) {
         check_filter!(&e, &*params, want, "role=comparison_row_returned_iff_true");
     }
 }
-fn cmp_all_ops(ka: u8, kb: u8, negate: bool) {
-    cmp_case(ka, kb, 0, negate); cmp_case(ka, kb, 1, negate); cmp_case(ka, kb, 2, negate);
-    cmp_case(ka, kb, 3, negate); cmp_case(ka, kb, 4, negate); cmp_case(ka, kb, 5, negate);
-}
-/// `=`, `<`, `>=` pin down the ordering the evaluator computed for a pair of kinds (the operator table itself is covered for all six operators by the *_int_int harnesses)
-fn cmp_three_ops(ka: u8, kb: u8, negate: bool) { cmp_case(ka, kb, 0, negate); cmp_case(ka, kb, 2, negate); cmp_case(ka, kb, 5, negate); }
+// ---- comparisons: `?1 op ?2` as a row filter (kinds: 0 NULL, 1 INTEGER, 2 FLOAT; ops: 0 = 1 <> 2 < 3 <= 4 > 5 >=)
 
-// @vt prop=C14 tier=quick bound="?1 op ?2 as a row filter for op in {=,<>,<,<=,>,>=}; both operands any INTEGER" outside="text operands; NaN; columns (resolved through a hash map of names) and literals (parsed from text); the select-list value of a comparison (evaluate_to_value -> eval_binary_op: one check ran out of 12 GB)" timeout=1800 mem=16
-vt_proof! { unwind = 4; fn c14_cmp_int_int() { cmp_all_ops(1, 1, false); kani::cover!(true, "w:reached_end"); }}
-// @vt prop=C14 tier=quick bound="?1 op ?2 as a row filter for the six comparison operators; both operands any non-NaN FLOAT" outside="text operands; NaN; columns (resolved through a hash map of names) and literals (parsed from text); the select-list value of a comparison (evaluate_to_value -> eval_binary_op: one check ran out of 12 GB)" timeout=1800 mem=16
-vt_proof! { unwind = 4; fn c14_cmp_float_float() { cmp_all_ops(2, 2, false); kani::cover!(true, "w:reached_end"); }}
-// @vt prop=C14 tier=quick bound="INTEGER op FLOAT as a row filter for the six comparison operators; |INTEGER| <= 2^53, any non-NaN FLOAT" outside="|INTEGER| > 2^53 against FLOAT (the evaluator compares through f64); text operands; NaN; columns (resolved through a hash map of names) and literals (parsed from text); the select-list value of a comparison (evaluate_to_value -> eval_binary_op: one check ran out of 12 GB)" timeout=1800 mem=16
-vt_proof! { unwind = 4; fn c14_cmp_int_float() { cmp_all_ops(1, 2, false); kani::cover!(true, "w:reached_end"); }}
-// @vt prop=C14 tier=quick bound="FLOAT op INTEGER as a row filter for the six comparison operators; |INTEGER| <= 2^53, any non-NaN FLOAT" outside="|INTEGER| > 2^53 against FLOAT; text operands; NaN; columns (resolved through a hash map of names) and literals (parsed from text); the select-list value of a comparison (evaluate_to_value -> eval_binary_op: one check ran out of 12 GB)" timeout=1800 mem=16
-vt_proof! { unwind = 4; fn c14_cmp_float_int() { cmp_all_ops(2, 1, false); kani::cover!(true, "w:reached_end"); }}
-// @vt prop=C14 tier=quick bound="NULL op x as a row filter, x any INTEGER or any FLOAT, op in {=,<,>=}" outside="text operands; NaN; columns (resolved through a hash map of names) and literals (parsed from text); the select-list value of a comparison (evaluate_to_value -> eval_binary_op: one check ran out of 12 GB)" timeout=1800 mem=16
-vt_proof! { unwind = 4; fn c14_cmp_null_left() { cmp_three_ops(0, 1, false); cmp_three_ops(0, 2, false); kani::cover!(true, "w:reached_end"); }}
-// @vt prop=C14 tier=quick bound="x op NULL as a row filter, x any INTEGER or any FLOAT, op in {=,<,>=}" outside="text operands; NaN; columns (resolved through a hash map of names) and literals (parsed from text); the select-list value of a comparison (evaluate_to_value -> eval_binary_op: one check ran out of 12 GB)" timeout=1800 mem=16
-vt_proof! { unwind = 4; fn c14_cmp_null_right() { cmp_three_ops(1, 0, false); cmp_three_ops(2, 0, false); kani::cover!(true, "w:reached_end"); }}
-// @vt prop=C14 tier=quick bound="NULL op NULL as a row filter for the six comparison operators" outside="text operands; NaN; columns (resolved through a hash map of names) and literals (parsed from text); the select-list value of a comparison (evaluate_to_value -> eval_binary_op: one check ran out of 12 GB)" timeout=1800 mem=16
-vt_proof! { unwind = 4; fn c14_cmp_null_null() { cmp_all_ops(0, 0, false); kani::cover!(true, "w:reached_end"); }}
-// @vt prop=C14 tier=quick bound="NOT (?1 op ?2) as a row filter for the six comparison operators; both operands any INTEGER" outside="text operands; NaN; columns (resolved through a hash map of names) and literals (parsed from text); the select-list value of a comparison (evaluate_to_value -> eval_binary_op: one check ran out of 12 GB)" timeout=1800 mem=16
-vt_proof! { unwind = 4; fn c14_not_cmp_int_int() { cmp_all_ops(1, 1, true); kani::cover!(true, "w:reached_end"); }}
-// @vt prop=C14 tier=quick bound="NOT (?1 op ?2) as a row filter, op in {=,<,>=}; FLOAT with FLOAT and INTEGER (|x| <= 2^53) with FLOAT" outside="text operands; NaN; columns (resolved through a hash map of names) and literals (parsed from text); the select-list value of a comparison (evaluate_to_value -> eval_binary_op: one check ran out of 12 GB)" timeout=1800 mem=16
-vt_proof! { unwind = 4; fn c14_not_cmp_float() { cmp_three_ops(2, 2, true); cmp_three_ops(1, 2, true); kani::cover!(true, "w:reached_end"); }}
-// @vt prop=C14 tier=quick bound="NOT (?1 op ?2) as a row filter where at least one operand is NULL: NULL/INTEGER and INTEGER/NULL with {=,<}, NULL/NULL with {=,<>}" outside="text operands; NaN; columns (resolved through a hash map of names) and literals (parsed from text); the select-list value of a comparison (evaluate_to_value -> eval_binary_op: one check ran out of 12 GB)" timeout=1800 mem=16
-vt_proof! { unwind = 4; fn c14_not_cmp_with_null() {
-    cmp_case(0, 1, 0, true); cmp_case(0, 1, 2, true); cmp_case(1, 0, 0, true); cmp_case(1, 0, 2, true); cmp_case(0, 0, 0, true); cmp_case(0, 0, 1, true);
+// @vt prop=C14 tier=quick bound="?1 op ?2 as a row filter, op in {=,<>,<}; both operands any INTEGER" outside="text operands; NaN; columns (hash-map lookup by name) and literals (parsed from text); the select-list value of a comparison (DESIGN 0.2 item 11)" timeout=1800 mem=16
+vt_proof_pred! { unwind = 4; fn c14_cmp_int_int_a() {
+    cmp_case(1, 1, 0, false); cmp_case(1, 1, 1, false); cmp_case(1, 1, 2, false);
     kani::cover!(true, "w:reached_end");
 }}
 
-/// `(?1 = ?2) AND|OR (?3 < ?4)`, optionally under NOT; operand kinds NULL or INTEGER.
-fn andor_case(kinds: [u8; 4], is_and: bool, negate: bool) {
-    let (a, pa) = mk(kinds[0]); let (b, pb) = mk(kinds[1]); let (c, pc) = mk(kinds[2]); let (d, pd) = mk(kinds[3]);
-    let params = ManuallyDrop::new([pa, pb, pc, pd]);
-    let (p1, p2, p3, p4) = (P!(1), P!(2), P!(3), P!(4));
+// @vt prop=C14 tier=quick bound="?1 op ?2 as a row filter, op in {<=,>,>=}; both operands any INTEGER" outside="text operands; NaN; columns (hash-map lookup by name) and literals (parsed from text); the select-list value of a comparison (DESIGN 0.2 item 11)" timeout=1800 mem=16
+vt_proof_pred! { unwind = 4; fn c14_cmp_int_int_b() {
+    cmp_case(1, 1, 3, false); cmp_case(1, 1, 4, false); cmp_case(1, 1, 5, false);
+    kani::cover!(true, "w:reached_end");
+}}
+
+// @vt prop=C14 tier=quick bound="NULL = x, x < NULL (x any INTEGER) and NULL = NULL as row filters" outside="text operands; NaN; columns (hash-map lookup by name) and literals (parsed from text); the select-list value of a comparison (DESIGN 0.2 item 11)" timeout=1800 mem=16
+vt_proof_pred! { unwind = 4; fn c14_cmp_with_null() {
+    cmp_case(0, 1, 0, false); cmp_case(1, 0, 2, false); cmp_case(0, 0, 0, false);
+    kani::cover!(true, "w:reached_end");
+}}
+
+// @vt prop=C14 tier=quick bound="INTEGER = FLOAT, FLOAT < INTEGER (|INTEGER| <= 2^53) and FLOAT >= FLOAT as row filters; any non-NaN FLOAT" outside="|INTEGER| > 2^53 against FLOAT (the evaluator compares through f64); text operands; NaN; columns (hash-map lookup by name) and literals (parsed from text); the select-list value of a comparison (DESIGN 0.2 item 11)" timeout=1800 mem=16
+vt_proof_pred! { unwind = 4; fn c14_cmp_mixed() {
+    cmp_case(1, 2, 0, false); cmp_case(2, 1, 2, false); cmp_case(2, 2, 5, false);
+    kani::cover!(true, "w:reached_end");
+}}
+
+// @vt prop=C14 tier=thorough bound="FLOAT op FLOAT for {=,<,>} as row filters; any non-NaN FLOAT" outside="text operands; NaN; columns (hash-map lookup by name) and literals (parsed from text); the select-list value of a comparison (DESIGN 0.2 item 11)" timeout=1800 mem=16
+vt_proof_pred! { unwind = 4; fn c14_cmp_float_float() {
+    cmp_case(2, 2, 0, false); cmp_case(2, 2, 2, false); cmp_case(2, 2, 4, false);
+    kani::cover!(true, "w:reached_end");
+}}
+
+// @vt prop=C14 tier=thorough bound="INTEGER op FLOAT for {<,>=,<>} as row filters; |INTEGER| <= 2^53" outside="text operands; NaN; columns (hash-map lookup by name) and literals (parsed from text); the select-list value of a comparison (DESIGN 0.2 item 11)" timeout=1800 mem=16
+vt_proof_pred! { unwind = 4; fn c14_cmp_int_float() {
+    cmp_case(1, 2, 2, false); cmp_case(1, 2, 5, false); cmp_case(1, 2, 1, false);
+    kani::cover!(true, "w:reached_end");
+}}
+
+// @vt prop=C14 tier=thorough bound="FLOAT op INTEGER for {=,>,<=} as row filters; |INTEGER| <= 2^53" outside="text operands; NaN; columns (hash-map lookup by name) and literals (parsed from text); the select-list value of a comparison (DESIGN 0.2 item 11)" timeout=1800 mem=16
+vt_proof_pred! { unwind = 4; fn c14_cmp_float_int() {
+    cmp_case(2, 1, 0, false); cmp_case(2, 1, 4, false); cmp_case(2, 1, 3, false);
+    kani::cover!(true, "w:reached_end");
+}}
+
+// @vt prop=C14 tier=thorough bound="NULL < FLOAT, FLOAT >= NULL, NULL <> NULL as row filters" outside="text operands; NaN; columns (hash-map lookup by name) and literals (parsed from text); the select-list value of a comparison (DESIGN 0.2 item 11)" timeout=1800 mem=16
+vt_proof_pred! { unwind = 4; fn c14_cmp_null_more() {
+    cmp_case(0, 2, 2, false); cmp_case(2, 0, 5, false); cmp_case(0, 0, 1, false);
+    kani::cover!(true, "w:reached_end");
+}}
+
+// @vt prop=C14 tier=quick bound="NOT (?1 = ?2), NOT (?1 < ?2) with both any INTEGER, NOT (NULL = ?2) as row filters" outside="text operands; NaN; columns (hash-map lookup by name) and literals (parsed from text); the select-list value of a comparison (DESIGN 0.2 item 11)" timeout=1800 mem=16
+vt_proof_pred! { unwind = 4; fn c14_not_cmp() {
+    cmp_case(1, 1, 0, true); cmp_case(1, 1, 2, true); cmp_case(0, 1, 0, true);
+    kani::cover!(true, "w:reached_end");
+}}
+
+// @vt prop=C14 tier=quick bound="NOT (NULL = NULL), NOT (?1 >= NULL), NOT (FLOAT < FLOAT) as row filters" outside="text operands; NaN; columns (hash-map lookup by name) and literals (parsed from text); the select-list value of a comparison (DESIGN 0.2 item 11)" timeout=1800 mem=16
+vt_proof_pred! { unwind = 4; fn c14_not_cmp_null() {
+    cmp_case(0, 0, 0, true); cmp_case(1, 0, 5, true); cmp_case(2, 2, 2, true);
+    kani::cover!(true, "w:reached_end");
+}}
+
+// @vt prop=C14 tier=thorough bound="NOT (?1 <> ?2), NOT (?1 <= ?2), NOT (?1 > ?2) with both any INTEGER as row filters" outside="text operands; NaN; columns (hash-map lookup by name) and literals (parsed from text); the select-list value of a comparison (DESIGN 0.2 item 11)" timeout=1800 mem=16
+vt_proof_pred! { unwind = 4; fn c14_not_cmp_more() {
+    cmp_case(1, 1, 1, true); cmp_case(1, 1, 3, true); cmp_case(1, 1, 4, true);
+    kani::cover!(true, "w:reached_end");
+}}
+
+
+/// `(?1 = ?2) AND|OR (?3 < ?2)`, optionally under NOT; ?2 any INTEGER, ?1 and ?3 each NULL or any INTEGER, so that the two
+/// sides take every pair of TRUE / FALSE / NULL.
+fn andor_case(ka: u8, kc: u8, is_and: bool, negate: bool) {
+    let (a, pa) = mk(ka); let (b, pb) = mk(1); let (c, pc) = mk(kc);
+    let params = ManuallyDrop::new([pa, pb, pc]);
+    let (p1, p2, p3) = (P!(1), P!(2), P!(3));
     let e1 = Expr::BinaryOp { left: &p1, op: B::Eq, right: &p2 };
-    let e2 = Expr::BinaryOp { left: &p3, op: B::Lt, right: &p4 };
-    let (t1, t2) = (r_op(0, a, b), r_op(2, c, d));
+    let e2 = Expr::BinaryOp { left: &p3, op: B::Lt, right: &p2 };
+    let (t1, t2) = (r_op(0, a, b), r_op(2, c, b));
     if is_and {
         let e = Expr::BinaryOp { left: &e1, op: B::And, right: &e2 };
         let want = r_and(t1, t2);
@@ -156,26 +238,48 @@ fn andor_case(kinds: [u8; 4], is_and: bool, negate: bool) {
     }
 }
 
-// @vt prop=C14 tier=quick bound="(?1 = ?2) AND (?3 < ?4) as a row filter; ?2, ?4 any INTEGER; ?1, ?3 each NULL or any INTEGER (4 combinations): every TRUE/FALSE/NULL pair of the two sides" outside="FLOAT/text operands here; deeper nesting; the select-list value" timeout=1800 mem=16
-vt_proof! { unwind = 4; fn c14_and() {
-    andor_case([1, 1, 1, 1], true, false); andor_case([0, 1, 1, 1], true, false); andor_case([1, 1, 0, 1], true, false); andor_case([0, 1, 0, 1], true, false);
+// @vt prop=C14 tier=quick bound="(?1 = ?2) AND (?3 < ?2) as a row filter; ?2 any INTEGER; (?1, ?3) kinds (INTEGER, INTEGER) and (NULL, INTEGER): sides TRUE/FALSE x TRUE/FALSE and NULL x TRUE/FALSE" outside="FLOAT/text operands here; deeper nesting; the select-list value" timeout=1800 mem=16
+vt_proof_pred! { unwind = 4; fn c14_and() {
+    andor_case(1, 1, true, false); andor_case(0, 1, true, false);
     kani::cover!(true, "w:reached_end");
 }}
-// @vt prop=C14 tier=quick bound="(?1 = ?2) OR (?3 < ?4) as a row filter, operands as c14_and" outside="FLOAT/text operands here; deeper nesting; the select-list value" timeout=1800 mem=16
-vt_proof! { unwind = 4; fn c14_or() {
-    andor_case([1, 1, 1, 1], false, false); andor_case([0, 1, 1, 1], false, false); andor_case([1, 1, 0, 1], false, false); andor_case([0, 1, 0, 1], false, false);
+
+// @vt prop=C14 tier=thorough bound="(?1 = ?2) AND (?3 < ?2) as a row filter; (?1, ?3) kinds (INTEGER, NULL) and (NULL, NULL)" outside="FLOAT/text operands here; deeper nesting; the select-list value" timeout=1800 mem=16
+vt_proof_pred! { unwind = 4; fn c14_and_b() {
+    andor_case(1, 0, true, false); andor_case(0, 0, true, false);
     kani::cover!(true, "w:reached_end");
 }}
-// @vt prop=C14 tier=quick bound="NOT ((?1 = ?2) AND (?3 < ?4)) as a row filter, operands as c14_and" outside="FLOAT/text operands here; deeper nesting; the select-list value" timeout=1800 mem=16
-vt_proof! { unwind = 4; fn c14_not_and() {
-    andor_case([1, 1, 1, 1], true, true); andor_case([0, 1, 1, 1], true, true); andor_case([1, 1, 0, 1], true, true); andor_case([0, 1, 0, 1], true, true);
+
+// @vt prop=C14 tier=quick bound="(?1 = ?2) OR (?3 < ?2) as a row filter; (?1, ?3) kinds (INTEGER, NULL) and (NULL, INTEGER)" outside="FLOAT/text operands here; deeper nesting; the select-list value" timeout=1800 mem=16
+vt_proof_pred! { unwind = 4; fn c14_or() {
+    andor_case(1, 0, false, false); andor_case(0, 1, false, false);
     kani::cover!(true, "w:reached_end");
 }}
-// @vt prop=C14 tier=quick bound="NOT ((?1 = ?2) OR (?3 < ?4)) as a row filter, operands as c14_and" outside="FLOAT/text operands here; deeper nesting; the select-list value" timeout=1800 mem=16
-vt_proof! { unwind = 4; fn c14_not_or() {
-    andor_case([1, 1, 1, 1], false, true); andor_case([0, 1, 1, 1], false, true); andor_case([1, 1, 0, 1], false, true); andor_case([0, 1, 0, 1], false, true);
+
+// @vt prop=C14 tier=thorough bound="(?1 = ?2) OR (?3 < ?2) as a row filter; (?1, ?3) kinds (INTEGER, INTEGER) and (NULL, NULL)" outside="FLOAT/text operands here; deeper nesting; the select-list value" timeout=1800 mem=16
+vt_proof_pred! { unwind = 4; fn c14_or_b() {
+    andor_case(1, 1, false, false); andor_case(0, 0, false, false);
     kani::cover!(true, "w:reached_end");
 }}
+
+// @vt prop=C14 tier=quick bound="NOT ((?1 = ?2) AND (?3 < ?2)) as a row filter; (?1, ?3) kinds (INTEGER, INTEGER) and (INTEGER, NULL)" outside="FLOAT/text operands here; deeper nesting; the select-list value" timeout=1800 mem=16
+vt_proof_pred! { unwind = 4; fn c14_not_and() {
+    andor_case(1, 1, true, true); andor_case(1, 0, true, true);
+    kani::cover!(true, "w:reached_end");
+}}
+
+// @vt prop=C14 tier=quick bound="NOT ((?1 = ?2) OR (?3 < ?2)) as a row filter; (?1, ?3) kinds (INTEGER, INTEGER) and (NULL, INTEGER)" outside="FLOAT/text operands here; deeper nesting; the select-list value" timeout=1800 mem=16
+vt_proof_pred! { unwind = 4; fn c14_not_or() {
+    andor_case(1, 1, false, true); andor_case(0, 1, false, true);
+    kani::cover!(true, "w:reached_end");
+}}
+
+// @vt prop=C14 tier=thorough bound="NOT (.. AND ..) with (NULL, INTEGER), (NULL, NULL); NOT (.. OR ..) with (INTEGER, NULL)" outside="FLOAT/text operands here; deeper nesting; the select-list value" timeout=3600 mem=32
+vt_proof_pred! { unwind = 4; fn c14_not_and_or_b() {
+    andor_case(0, 1, true, true); andor_case(0, 0, true, true); andor_case(1, 0, false, true);
+    kani::cover!(true, "w:reached_end");
+}}
+
 
 /// `?1 [NOT] IN (?2, ?3)`; `wrap_not` puts the whole node under a NOT (TRUE iff the node is FALSE, so that NULL and FALSE
 /// are told apart through the filter alone); `both` also checks the select-list value.
@@ -197,75 +301,74 @@ fn in_case(kinds: [u8; 3], negated: bool, wrap_not: bool, both: bool) {
     }
 }
 
-// @vt prop=C14 tier=quick bound="?1 IN (?2, ?3) and ?1 NOT IN (?2, ?3): all three any INTEGER; filter and select-list value" outside="NULL members (c14_in_list_with_null); FLOAT members (IN compares floats with an epsilon); lists longer than 2; text" timeout=1800 mem=16
-vt_proof! { unwind = 4; fn c14_in_list_non_null() {
+// @vt prop=C14 tier=quick bound="?1 IN (?2, ?3) and ?1 NOT IN (?2, ?3), all any INTEGER: row filter and select-list value" outside="FLOAT members (IN compares floats with an epsilon); lists longer than 2; text" timeout=1800 mem=16
+vt_proof_pred! { unwind = 4; fn c14_in_list() {
     in_case([1, 1, 1], false, false, true); in_case([1, 1, 1], true, false, true);
     kani::cover!(true, "w:reached_end");
 }}
-// @vt prop=C14 tier=quick bound="?1 IN (?2, ?3) as a row filter where ?1 and/or list members are NULL (the other operands any INTEGER): 6 kind combinations" outside="as c14_in_list_non_null; the select-list value for these (thorough: c14_in_list_null_value)" timeout=1800 mem=16
-vt_proof! { unwind = 4; fn c14_in_list_with_null() {
-    in_case([1, 0, 1], false, false, false); in_case([1, 1, 0], false, false, false); in_case([1, 0, 0], false, false, false);
-    in_case([0, 1, 1], false, false, false); in_case([0, 0, 1], false, false, false); in_case([0, 0, 0], false, false, false);
+
+// @vt prop=C14 tier=quick bound="?1 IN (NULL, ?3), NULL IN (?2, ?3), ?1 NOT IN (?2, NULL) as row filters (the others any INTEGER)" outside="FLOAT members (IN compares floats with an epsilon); lists longer than 2; text; the select-list value for these (thorough: c14_in_list_null_value)" timeout=1800 mem=16
+vt_proof_pred! { unwind = 4; fn c14_in_list_null() {
+    in_case([1, 0, 1], false, false, false); in_case([0, 1, 1], false, false, false); in_case([1, 1, 0], true, false, false);
     kani::cover!(true, "w:reached_end");
 }}
-// @vt prop=C14 tier=quick bound="NOT (?1 IN (?2, ?3)) as a row filter: (INTEGER, NULL, INTEGER), (INTEGER, INTEGER, NULL), (NULL, INTEGER, INTEGER), all INTEGER" outside="as c14_in_list_non_null" timeout=1800 mem=16
-vt_proof! { unwind = 4; fn c14_not_of_in_list() {
-    in_case([1, 0, 1], false, true, false); in_case([1, 1, 0], false, true, false); in_case([0, 1, 1], false, true, false); in_case([1, 1, 1], false, true, false);
+
+// @vt prop=C14 tier=quick bound="NOT (?1 IN (?2, NULL)), NOT (?1 IN (?2, ?3)), NOT (?1 NOT IN (NULL, ?3)) as row filters" outside="FLOAT members (IN compares floats with an epsilon); lists longer than 2; text" timeout=1800 mem=16
+vt_proof_pred! { unwind = 4; fn c14_not_of_in_list() {
+    in_case([1, 1, 0], false, true, false); in_case([1, 1, 1], false, true, false); in_case([1, 0, 1], true, true, false);
     kani::cover!(true, "w:reached_end");
 }}
-// @vt prop=C14 tier=quick bound="?1 NOT IN (?2, ?3) where ?1 and/or list members are NULL (the other operands any INTEGER): 6 kind combinations (filter path)" outside="as c14_in_list_non_null" timeout=1800 mem=16
-vt_proof! { unwind = 4; fn c14_not_in_list_with_null() {
-    in_case([1, 0, 1], true, false, false); in_case([1, 1, 0], true, false, false); in_case([1, 0, 0], true, false, false);
-    in_case([0, 1, 1], true, false, false); in_case([0, 0, 1], true, false, false); in_case([0, 0, 0], true, false, false);
+
+// @vt prop=C14 tier=thorough bound="?1 IN (?2, NULL), ?1 IN (NULL, NULL), NULL IN (NULL, ?3), NULL IN (NULL, NULL); ?1 NOT IN (NULL, ?3), ?1 NOT IN (NULL, NULL), NULL NOT IN (?2, ?3) as row filters" outside="FLOAT members (IN compares floats with an epsilon); lists longer than 2; text" timeout=3600 mem=40
+vt_proof_pred! { unwind = 4; fn c14_in_list_null_more() {
+    in_case([1, 1, 0], false, false, false); in_case([1, 0, 0], false, false, false); in_case([0, 0, 1], false, false, false); in_case([0, 0, 0], false, false, false); in_case([1, 0, 1], true, false, false); in_case([1, 0, 0], true, false, false); in_case([0, 1, 1], true, false, false);
     kani::cover!(true, "w:reached_end");
 }}
-// @vt prop=C14 tier=thorough bound="select-list value of ?1 [NOT] IN (?2, NULL) and NULL IN (?2, ?3): INTEGER operands" outside="as c14_in_list_non_null" timeout=3600 mem=32
-vt_proof! { unwind = 4; fn c14_in_list_null_value() {
+
+// @vt prop=C14 tier=thorough bound="select-list value of ?1 [NOT] IN (?2, NULL) and NULL IN (?2, ?3): INTEGER operands" outside="FLOAT members (IN compares floats with an epsilon); lists longer than 2; text" timeout=3600 mem=40
+vt_proof_pred! { unwind = 4; fn c14_in_list_null_value() {
     in_case([1, 1, 0], false, false, true); in_case([1, 1, 0], true, false, true); in_case([0, 1, 1], false, false, true);
     kani::cover!(true, "w:reached_end");
 }}
 
-/// `?1 [NOT] BETWEEN ?2 AND ?3`
-fn between_case(kinds: [u8; 3], negated: bool) { between_case2(kinds, negated, false) }
-fn between_case2(kinds: [u8; 3], negated: bool, wrap_not: bool) {
+
+/// `?1 [NOT] BETWEEN ?2 AND ?3`, optionally under NOT
+fn between_case(kinds: [u8; 3], negated: bool, wrap_not: bool) {
     let (x, px) = mk(kinds[0]); let (lo, pl) = mk(kinds[1]); let (hi, ph) = mk(kinds[2]);
     kani::assume(mixed_ok(x, lo) && mixed_ok(x, hi));
     let params = ManuallyDrop::new([px, pl, ph]);
     let (p1, p2, p3) = (P!(1), P!(2), P!(3));
     let e = Expr::Between { expr: &p1, negated, low: &p2, high: &p3 };
     let t = r_between(x, lo, hi);
+    let t = if negated { r_not(t) } else { t };
     if wrap_not {
-        let t = if negated { r_not(t) } else { t };
         let n = Expr::UnaryOp { op: UnaryOperator::Not, expr: &e };
         check_filter!(&n, &*params, r_not(t), "role=not_of_between_row_returned_iff_true");
     } else if negated {
-        check_filter!(&e, &*params, r_not(t), "role=not_between_row_returned_iff_true");
+        check_filter!(&e, &*params, t, "role=not_between_row_returned_iff_true");
     } else {
         check_filter!(&e, &*params, t, "role=between_row_returned_iff_true");
     }
 }
 
-// @vt prop=C14 tier=quick bound="?1 BETWEEN ?2 AND ?3 and ?1 NOT BETWEEN ?2 AND ?3 as a row filter: all INTEGER; all FLOAT; INTEGER (|x| <= 2^53) between FLOATs" outside="text; NaN; the select-list value" timeout=1800 mem=16
-vt_proof! { unwind = 4; fn c14_between_non_null() {
-    between_case([1, 1, 1], false); between_case([2, 2, 2], false); between_case([1, 2, 2], false);
-    between_case([1, 1, 1], true); between_case([2, 2, 2], true); between_case([1, 2, 2], true);
+// @vt prop=C14 tier=quick bound="?1 BETWEEN ?2 AND ?3 (all INTEGER), ?1 BETWEEN NULL AND ?3, ?1 NOT BETWEEN ?2 AND NULL as row filters" outside="text; NaN; the select-list value" timeout=1800 mem=16
+vt_proof_pred! { unwind = 4; fn c14_between() {
+    between_case([1, 1, 1], false, false); between_case([1, 0, 1], false, false); between_case([1, 1, 0], true, false);
     kani::cover!(true, "w:reached_end");
 }}
-// @vt prop=C14 tier=quick bound="?1 BETWEEN ?2 AND ?3 as a row filter with NULL operands: (x,lo,hi) kinds in {(I,N,I),(I,I,N),(I,N,N),(N,I,I),(N,N,N)}, the others any INTEGER" outside="text; the select-list value" timeout=1800 mem=16
-vt_proof! { unwind = 4; fn c14_between_with_null() {
-    between_case([1, 0, 1], false); between_case([1, 1, 0], false); between_case([1, 0, 0], false); between_case([0, 1, 1], false); between_case([0, 0, 0], false);
+
+// @vt prop=C14 tier=quick bound="NOT (?1 BETWEEN ?2 AND NULL), NOT (?1 BETWEEN ?2 AND ?3), ?1 NOT BETWEEN ?2 AND ?3 (all INTEGER) as row filters" outside="text; NaN; the select-list value" timeout=1800 mem=16
+vt_proof_pred! { unwind = 4; fn c14_not_of_between() {
+    between_case([1, 1, 0], false, true); between_case([1, 1, 1], false, true); between_case([1, 1, 1], true, false);
     kani::cover!(true, "w:reached_end");
 }}
-// @vt prop=C14 tier=quick bound="?1 NOT BETWEEN ?2 AND ?3 as a row filter with NULL operands (same 5 kind combinations)" outside="text; the select-list value" timeout=1800 mem=16
-vt_proof! { unwind = 4; fn c14_not_between_with_null() {
-    between_case([1, 0, 1], true); between_case([1, 1, 0], true); between_case([1, 0, 0], true); between_case([0, 1, 1], true); between_case([0, 0, 0], true);
+
+// @vt prop=C14 tier=thorough bound="BETWEEN over FLOATs and INTEGER-between-FLOATs, NULL BETWEEN, ?1 BETWEEN NULL AND NULL, NOT BETWEEN with a NULL low bound / NULL value, NOT (NULL BETWEEN ..)" outside="text; NaN; the select-list value" timeout=3600 mem=40
+vt_proof_pred! { unwind = 4; fn c14_between_more() {
+    between_case([2, 2, 2], false, false); between_case([1, 2, 2], false, false); between_case([0, 1, 1], false, false); between_case([1, 0, 0], false, false); between_case([1, 0, 1], true, false); between_case([0, 1, 1], true, false); between_case([0, 1, 1], false, true);
     kani::cover!(true, "w:reached_end");
 }}
-// @vt prop=C14 tier=quick bound="NOT (?1 BETWEEN ?2 AND ?3) as a row filter: (I,N,I), (I,I,N), (N,I,I), all INTEGER" outside="text; the select-list value" timeout=1800 mem=16
-vt_proof! { unwind = 4; fn c14_not_of_between() {
-    between_case2([1, 0, 1], false, true); between_case2([1, 1, 0], false, true); between_case2([0, 1, 1], false, true); between_case2([1, 1, 1], false, true);
-    kani::cover!(true, "w:reached_end");
-}}
+
 
 fn is_null_case(kind: u8, negated: bool, under_not: bool) {
     let (x, px) = mk(kind);
@@ -276,18 +379,20 @@ fn is_null_case(kind: u8, negated: bool, under_not: bool) {
     let t = Some(if negated { !isnull } else { isnull });
     if under_not {
         let n = Expr::UnaryOp { op: UnaryOperator::Not, expr: &e };
-        check!(&n, &*params, r_not(t), "role=not_is_null_row_returned_iff_true", "role=not_is_null_value_is_two_valued");
+        check_filter!(&n, &*params, r_not(t), "role=not_is_null_row_returned_iff_true");
     } else {
         check!(&e, &*params, t, "role=is_null_row_returned_iff_true", "role=is_null_value_is_two_valued");
     }
 }
-// @vt prop=C14 tier=quick bound="?1 IS NULL / ?1 IS NOT NULL, alone and under NOT: ?1 NULL, any INTEGER or any FLOAT" outside="text" timeout=1800 mem=16
-vt_proof! { unwind = 4; fn c14_is_null() {
-    let mut kind = 0u8;
-    while kind < 3 {
-        is_null_case(kind, false, false); is_null_case(kind, true, false);
-        is_null_case(kind, false, true); is_null_case(kind, true, true);
-        kind += 1;
-    }
+
+// @vt prop=C14 tier=quick bound="?1 IS NULL / ?1 IS NOT NULL (row filter and select-list value) for ?1 NULL and any INTEGER; NOT (?1 IS NULL) for both" outside="text; FLOAT (thorough)" timeout=1800 mem=16
+vt_proof_pred! { unwind = 4; fn c14_is_null() {
+    is_null_case(0, false, false); is_null_case(1, false, false); is_null_case(0, true, false); is_null_case(1, true, false); is_null_case(0, false, true); is_null_case(1, false, true);
+    kani::cover!(true, "w:reached_end");
+}}
+
+// @vt prop=C14 tier=thorough bound="?1 IS [NOT] NULL and NOT (?1 IS [NOT] NULL) for any FLOAT; NOT (?1 IS NOT NULL) for NULL / INTEGER" outside="text" timeout=3600 mem=32
+vt_proof_pred! { unwind = 4; fn c14_is_null_float() {
+    is_null_case(2, false, false); is_null_case(2, true, false); is_null_case(2, false, true); is_null_case(0, true, true); is_null_case(1, true, true);
     kani::cover!(true, "w:reached_end");
 }}
